@@ -57,14 +57,20 @@ are still judged - a different symptom in the same region, or the same symptom e
   KF-C20-sqrtneg-general (special.py, is_real=False branch: squares overflow/underflow -> NaN, cancellation
   loses the small component, -0.0 imaginary part ignored; proposed patch out/proposed-fix-C20-1.diff).
 
-Sensitivity (tools/mut.py on the generated C / on special.py; quick tier, `--cases 6000`)
-  complex.c  Algorithm 312 `* 0.5)` -> `* 0.25)` in cf_csqrt (first branch)        CAUGHT csqrt/normal/inaccurate
-  complex.c  LOGE2 0.693147180559945309 -> 0.693147180559945409                     CAUGHT clog/huge+both_subnormal
-  complex.c  cf_hypot `1. + yx*yx` -> `1. + yx`                                     CAUGHT hypot, csqrt, clog
-  complex.c  cf_cipow negative_pow branch `1. / result` dropped                     CAUGHT cipow/mul
-  complex.c  clog annulus bound 0.71 -> 0.071 (log1p branch used where it cancels)  CAUGHT clog
-  special_x.c table entry 9!! 945.00 -> 954.00                                      CAUGHT double_factorial exact
-  special.py  is_real branch `< 0.` -> `<= 0.` swap / `1.0j` dropped                CAUGHT sqrt_neg agree
+Sensitivity (tools/mut.py on the generated C / on special.py; `-- --cases 6000 --shards 4`, each 10-40 s; all CAUGHT)
+  complex.c  cf_csqrt Algorithm 312 first branch `* 0.5)` -> `* 0.25)`            csqrt normal/tiny ulp
+  complex.c  cf_csqrt `copysign(t, z_imag)` -> `t` (branch cut side)              csqrt normal ulp + annexg (-fin,-0)
+  complex.c  cf_csqrt rescale: imag additionally `* 4.0` (a *different* bug       csqrt overflow_rescale -> inaccurate
+             inside the known overflow_rescale region)                             (not matched by KF-C20-csqrt-rescale)
+  complex.c  LOGE2 0.6931471805.. -> 0.6931471815.. and -> 0.693147180560945..     clog huge / both_subnormal
+  complex.c  cf_hypot `1. + yx*yx` -> `1. + yx`                                   hypot, csqrt, clog, cipow(explog)
+  complex.c  cf_cexp `(x*c, x*s)` -> `(x*s, x*c)`                                 cexp normal, cpow/cipow explog
+  complex.c  cf_clog log1p argument `(a_max-1)(a_max+1)` -> `(a_max-1)(a_max-1)`  clog annulus (+ real axis table)
+  complex.c  cf_cipow `negative_pow = 1` -> `0` (inverse dropped)                 cipow mul
+  special_x.c table entry 9!! `945.00` -> `954.00`                                double_factorial exact n_got 9:..
+  special.py  `(np.real(z) < 0.) * z_sqrt_abs * 1.0j` -> without `* 1.0j`         sqrt_neg agree (mode real)
+  out/proposed-fix-C20-1.diff applied to special.py: check passes, KF-C20-sqrtneg-general no longer reproduced
+  (only the compiled side's own findings remain), repository test test_g_math_special_funcs.py still passes.
 """
 import math
 import sys
